@@ -219,11 +219,13 @@ def check_c02(ctx, ana, case, judge=True):
         ctx.count('clause_bd', 2 * N)
     # (c) external load at the recorded state and time
     L = ana.L
-    scale = abs(load['A']) + abs(load['S']) + abs(load['step_A'])
+    scale = abs(load['A']) + abs(load['S']) + abs(load['step_A']) + abs(load.get('P') or 0.0)
     for k in range(N):
         t, p, w = tr.time[k], L['angular position'][k], L['angular speed'][k]
         exp = load_value(load, t, p, w)
         sc = scale + abs(load['B'] * w) + abs(load['C'] * p)
+        if load.get('P'):
+            sc += abs(load['P']) * 2 * math.pi * load['fp'] * abs(p) * 1e-6          # conditioning of sin(2 pi f theta) at large theta (argument rounding ~ 1e-16 theta)
         if not close(L['load torque'][k], exp, REL, 1e-9 * sc):
             # a step exactly at the instant: float time may sit on either side
             if load['step_t'] is not None and abs(t - load['step_t']) <= 1e-9 * max(abs(t), 1e-300):
